@@ -4,6 +4,26 @@ import json, os
 HERE = os.path.dirname(os.path.dirname(os.path.abspath(__file__)))
 
 CHECKS = {
+ "C05": dict(
+    technique="stream-layout agreement by abstract interpretation of cursor variables in writer/reader pairs (header slots, segments, alignment steps, unit coherence), vocabulary agreement (FileMode sets, tags, magic numbers, banners, size line), index-kind/coverage rules on text readers, CFG guard rules for array-free containers, state-reset rule for the checkpoint reader - all over clang facts",
+    text="Decides for all containers, shapes, type parameters and checkpoint contents the structural part of 'reads back what was written': _serialize/_deserialize agree slot by slot and segment by segment on all four compression branches with coherent cursor units, _serialized_size accounts for every byte, the reader allocates what is transferred; write_out/read_from handle the same FileModes with identical (tag, DT, IT); magic numbers and MatrixMarket banners/size lines written are the ones accepted; the CSR mtx reader builds row_ptr completely with row-kind subscripts; the counter split of text readers divides by the dimension the writer runs fastest; the checkpoint record layout, meta-container recursion, length words and block order agree on both sides; Pack case tables and loops are consistent; IO routines do not touch arrays of array-free/length-0 containers unguarded; state of an earlier checkpoint load cannot survive a later one.",
+    note="Trusted: clang front end, featx facts, the cursor interpreter in checks/c05.py. Assumed: text files are as the writer produces them. Not decided: bit identity / printed precision of values, zlib/zfp internals (structural only), duplicate or malformed text entries, entry-line token order, DistFileIO/MPI.",
+    design="§4 C05"),
+ "C11": dict(
+    technique="must-facts forward dataflow on the clang CFGs of all parser callbacks (guard-before-store, truncation, parse-result-used, token guards, mandatory attributes/children), writer-literal stream vs reader class tree vocabulary matching, cursor-form layout agreement of Graph serialise/deserialise incl. degenerate states, scanner stack/line-count rules",
+    text="Decides for every input text the structural conditions of 'malformed input is rejected, valid output is accepted': in all MarkupParser subclasses every store indexed by the running counter is dominated by the counter/limit check that throws, every close() rejects truncation with the same limit, the limit is the extent of the indexed container, every String::parse result is tested with no normal exit from the failure edge, token accesses are below the checked size, stored indices are compared with their bound, parsed dims are range-checked before indexing, attributes are dereferenced only if guarded or mandatory, mandatory child blocks are demanded; the XML scanner never pops an empty stack and counts every line; every tag/attribute/value the writer emits is accepted by the reader with matching per-dimension index/target sets and one markup per line; Graph::serialize and Graph(buffer) agree also for empty graphs; PropertyMap write forms are classified by distinct reader branches.",
+    note="Trusted: clang front end, featx facts, the dataflow in checks/c11.py; index-range rules are decided on a bounded model (0..5 per symbol) as stated in the evidence; mandatory children transcribed from mesh_format.dox (anchor sentences re-checked each run). Not decided: byte-for-byte write-read-write idempotence, printed precision, termination, the mesh type string, property-map values containing delimiters.",
+    design="§4 C11"),
+ "C13": dict(
+    technique="static rules on the MPI-enabled parse (code the baseline build never compiles): instantiability, request/buffer typestate over the CFGs of the ticket classes, per-neighbour index coherence, commutativity-by-form of the completion handler and scatter kernels, type-0/type-1 discipline rules on Gate/Global classes",
+    text="Decides for all process counts, partitionings and message arrival orders the structural conditions: all 82 curated members of the distributed layer type-check with MPI on; every posted request is completed (wait_all / wait_any loop left through its false edge) before its buffer dies and holders are never re-posted while pending; buffers and requests move together; within one neighbour iteration rank, mirror, buffers and request use the same index with the message length taken from the same buffer and gather before isend; the completion handler is exactly mirror[idx].scatter_axpy(target, recv_buf[idx]) and the scatter kernels only add, so handlers commute (arrival order cannot matter up to rounding); Global::Matrix::apply is local apply then sync_0 on every path; Gate::dot weights by the frequencies exactly once; frequencies are 1, +1 per mirror, inverted once; sync_0/sync_1/from_1_to_0 discipline and reductions use the right operation.",
+    note="Trusted: clang front end (parse with -DFEAT_HAVE_MPI and the OpenMPI headers), featx facts, lib/dfl.py. Not decided: equality with the one-process run, global DOF counts, real message schedules and deadlock freedom, halo symmetry (C12), MatrixMirror kernels, Splitter data movement, the FEAT_MPI_THREAD_MULTIPLE variant.",
+    design="§4 C13"),
+ "C19": dict(
+    technique="index-kind checker for CSR-style index code (lib/ikinds.py: symbolic extents, loop ranges, coverage, two-pass count/fill agreement, mask reset), decision tables of render/permutation dispatch, three-valued semantic evaluation of root selection, cursor-form serial layout",
+    text="Decides for all graphs, permutations, render types and root options the structural part of 'meets its definition': every subscript and adjactor node lies in its extent kind; every output array is assigned on its whole extent; the count pass and fill pass of all 8 render functions are equal as event traces with offsets built by a full prefix sum and cursors restored; transposes swap domain/image on every exit; stored indices are image nodes of the result; the duplicate masks are tested/marked/reset over identical loop nests; each RenderType and permutation constructor type dispatches to the documented function; permutation apply/inverse/concat forms are dual; unsigned length arithmetic cannot underflow; the greedy colouring tests the mask filled from the node's own list; Cuthill-McKee enters and marks every node once and every root option finds a root whenever a node is left; sort_indices sorts exactly each adjacency segment; Graph serialise/deserialise agree.",
+    note="Trusted: clang front end, featx facts, lib/ikinds.py; assumptions (node-to-node graphs for colouring/ordering, parameter docs for permutation sizes) listed in the evidence. Not decided: that a colouring is proper or an ordering bijective as values, the cycle tracing in calc_swap_from_perm, value-dependent totals, sorting stability.",
+    design="§4 C19"),
  "C08": dict(
     technique="index-kind and triangularity rules on the sweep loops, sympy (non-commutative for blocks) normal forms of the row updates and of init_numeric+apply as linear operators, CFG must-pass rules (filter_cor follows, output defined, input const), freshness typestate for members derived from matrix values",
     text="Decides for all matrices, vectors, omega and init/apply histories: SOR/SSOR sweeps (CSR and BCSR) are triangular with the diagonal read at the stopping position and equal the textbook row update; SSOR is scaled once by omega(2-omega) and SOR not; Jacobi/Scale/Diagonal/Matrix/Polynomial apply equal their operator formulas symbolically; ILU solve loops and init order are right; every normal exit of apply is preceded by filter_cor on the output, the input is never written, the output is defined on every path; every member derived from matrix values is rewritten on every path through init_numeric, init_symbolic reads structure only; all documented factory overloads instantiate.",
